@@ -439,4 +439,65 @@ theorem raising_not_selected (ρ : Env) (b : BExp) (nodes : List Node) (deep : B
   cases this with
   | last _ hq => rw [(raising_not_matching ρ e).1 b hr] at hq; cases hq
 
+/-! ## 6. where -/
+
+/-- `result.where(q)` keeps exactly the result's own children that satisfy the entry query, in their order;
+`entry.where(q)` is all of the entry's children or nothing -/
+theorem where_exact (ρ : Env) (q : EQ) (children : List Node) (e : Node) :
+    (∀ n, n ∈ resultWhere ρ children q ↔ n ∈ children ∧ q.eval ρ n = true) ∧
+    (resultWhere ρ children q).Sublist children ∧
+    (q.eval ρ e = true → entryWhere ρ e q = e.kids) ∧ (q.eval ρ e = false → entryWhere ρ e q = []) := by
+  refine ⟨fun n => by simp [resultWhere], List.filter_sublist, ?_, ?_⟩
+  · intro h; simp [entryWhere, h]
+  · intro h; simp [entryWhere, h]
+
+/-! ## 7. combinations are values
+
+Building `b & c`, `c | b`, `~b`, `(b & c) & d`, … from a combination `b` that was built before
+yields a NEW combination and leaves `b` — and every other earlier combination — what it was.
+In the model this is immediate (the environment only grows); the weight of this clause is on
+the correspondence, where the harness re-evaluates every binding of a program after every later
+binding was made. -/
+
+theorem letB_appends (env : List BExp) (t : BTerm) (env' : List BExp) (h : letB env t = some env') :
+    ∃ b, t.resolve env = some b ∧ env' = env ++ [b] := by
+  simp only [letB, Option.map_eq_some_iff] at h
+  obtain ⟨b, hb, rfl⟩ := h
+  exact ⟨b, hb, rfl⟩
+
+/-- whatever is built later, the i-th combination stays the same value (hence the same truth table,
+interpreted and compiled, and the same query results) -/
+theorem binding_is_value (ts : List BTerm) : ∀ (env env' : List BExp), runLets env ts = some env' →
+    ∀ (i : Nat) (b : BExp), env[i]? = some b → env'[i]? = some b := by
+  induction ts with
+  | nil => intro env env' h i b hi; simp only [runLets, Option.some.injEq] at h; subst h; exact hi
+  | cons t ts ih =>
+    intro env env' h i b hi
+    simp only [runLets, Option.bind_eq_some_iff] at h
+    obtain ⟨env1, h1, h2⟩ := h
+    obtain ⟨x, _, rfl⟩ := letB_appends env t env1 h1
+    refine ih _ _ h2 i b ?_
+    have hlt : i < env.length := by
+      rcases Nat.lt_or_ge i env.length with h | h
+      · exact h
+      · rw [List.getElem?_eq_none h] at hi; cases hi
+    rw [List.getElem?_append_left hlt]; exact hi
+
+/-- a derived combination means the combination of what its operands mean, whichever side the
+existing combination is used on -/
+theorem derived_meaning (env : List BExp) (i j : Nat) (bi bj : BExp)
+    (hi : env[i]? = some bi) (hj : env[j]? = some bj) (ρ : Env) (v : Val) :
+    (BTerm.and (.ref i) (.ref j)).resolve env = some (.and bi bj) ∧
+    (BTerm.or (.ref i) (.ref j)).resolve env = some (.or bi bj) ∧
+    (BTerm.not (.ref i)).resolve env = some (.not bi) ∧
+    (BExp.and bi bj).interp ρ v = (bi.interp ρ v && bj.interp ρ v) ∧
+    (BExp.or bi bj).interp ρ v = (bi.interp ρ v || bj.interp ρ v) ∧
+    (BExp.not bi).interp ρ v = !bi.interp ρ v := by
+  simp [BTerm.resolve, hi, hj, BExp.interp]
+
+example : runLets [] [.prim .eq (.str ['a']), .not (.ref 0), .and (.ref 0) (.ref 1), .or (.ref 2) (.ref 0)]
+    = some [.prim .eq (.str ['a']), .not (.prim .eq (.str ['a'])),
+            .and (.prim .eq (.str ['a'])) (.not (.prim .eq (.str ['a']))),
+            .or (.and (.prim .eq (.str ['a'])) (.not (.prim .eq (.str ['a'])))) (.prim .eq (.str ['a']))] := by rfl
+
 end IV.Query
